@@ -33,6 +33,9 @@ type Options struct {
 	SelfTest bool
 	NoReplay bool
 	MaxPaths int
+	// self-test only: do not write the evidence file, do not print verdict lines
+	NoEvidence bool
+	Quiet      bool
 	Summary  bool
 	Seed     int64
 }
@@ -290,12 +293,17 @@ func runProperty(o *Options, specs []*Spec) (int, error) {
 			inconclusive = append(inconclusive, hs.Spec.Name+": translator validation mismatch: "+m)
 		}
 	}
+	wall := time.Since(t0)
+	if o.Quiet {
+		return 0, nil
+	}
 	for _, l := range lines {
 		fmt.Println(l)
 	}
-	wall := time.Since(t0)
-	if err := writeEvidence(o, all, findings, violations, inconclusive, wall); err != nil {
-		return 2, err
+	if !o.NoEvidence {
+		if err := writeEvidence(o, all, findings, violations, inconclusive, wall); err != nil {
+			return 2, err
+		}
 	}
 	for _, hs := range all {
 		fmt.Printf("%s: paths=%d steps=%d units=%d asserts=%d assert-queries=%d feas-queries=%d model-hits=%d findings=%d validated=%d wall=%.1fs solver=%.1fs cvc5-fallback=%d/%.1fs ends=%v\n",
